@@ -52,6 +52,10 @@ def goDiverge {α} : Option α := none
     overwrite them before reading; capacity is not modelled); panics when `n` is negative -/
 def makeBigs (n : Int) : Option (List Int) := if n < 0 then none else some (List.replicate n.toNat 0)
 
+/-- `x.Bit(i)` on a non-negative `x`: panics when `i` is negative -/
+def bBit (x : Int) (i : Int) : Option Int :=
+  if i < 0 then none else some (if x.toNat.testBit i.toNat then 1 else 0)
+
 /-- `new(big.Int).Mul(x, y)` -/
 def bMul (x y : Int) : Int := x * y
 
